@@ -207,7 +207,7 @@ pub fn config_for(prop: &str, tier: Tier) -> BConfig {
             c.exh_budget = tier.pick(70_000, 2_000_000);
         }
         "C11" => {
-            c.emit = EmitOpts { builder: true, ..acc.clone() };
+            c.emit = EmitOpts { builder: true, defaults: true, derive_eq: true, ..acc.clone() };
             c.cases = tier.pick(600, 5000);
             c.max_ops = tier.pick(16, 48);
         }
@@ -240,7 +240,8 @@ pub fn run(rc: &RunCtx) -> Outcome {
     // every generated declaration must be rule-valid: anything else is a generator bug
     for (id, l) in &layouts {
         let v = rules::layout_verdict(l);
-        if !v.is_valid() {
+        let tolerated = prop == "C16" && matches!(&v, rules::Verdict::Unspecified(r) if r == "list names a bit twice");
+        if !v.is_valid() && !tolerated {
             inconclusive(&format!("generator bug: layout {} is not rule-valid ({:?}):\n{}", id, v, render_layout(l, &RenderOpts::default())));
         }
     }
@@ -271,6 +272,28 @@ pub fn run(rc: &RunCtx) -> Outcome {
                 }
                 if rules::layout_verdict(&nl).is_invalid() {
                     probes.push(nl);
+                }
+            }
+        }
+        // the same through arrays: one element more than fits below bit N, still inside the storage
+        for (_, l) in &layouts {
+            let st = l.storage_bits();
+            for (fi, f) in l.fields.iter().enumerate() {
+                if let Some(a) = &f.array {
+                    let stride = f.stride();
+                    let top0 = f.ranges.iter().map(|r| r.hi).max().unwrap_or(0);
+                    if stride == 0 || top0 >= l.base_bits {
+                        continue;
+                    }
+                    let k_fit = (l.base_bits - 1 - top0) / stride + 1;
+                    let top_new = top0 + k_fit * stride;
+                    if top_new < st && top_new >= l.base_bits {
+                        let mut nl = l.clone();
+                        nl.fields[fi].array = Some(ArrayDecl { count: k_fit + 1, ..a.clone() });
+                        if rules::layout_verdict(&nl).is_invalid() {
+                            probes.push(nl);
+                        }
+                    }
                 }
             }
         }
@@ -310,7 +333,7 @@ pub fn run(rc: &RunCtx) -> Outcome {
             for (k, v) in [1u128 << b, mask(st), (1u128 << b) | 1].iter().enumerate() {
                 for colon in [false, true] {
                     let l = Layout {
-                        default: Some(DefaultDecl { value: *v, named_const: k == 2 && colon, radix: 16 }),
+                        default: Some(DefaultDecl { value: *v, named_const: k == 2 && colon, radix: 16, const_name: None }),
                         default_colon: colon,
                         ..corpus::lay(b, vec![corpus::fld("f", 0, 1, FieldTy::Bool, Access::RW)])
                     };
